@@ -4,6 +4,14 @@ PC = 'tdda/constraints/pd/constraints.py'
 BS = 'tdda/constraints/base.py'
 
 VARIANTS = [
+    M('C06', 'allowed-values-detector-gains-a-type-arm',
+      E(PC, "        name = verification_field(colname, 'allowed_values')\n        c = self.df[colname]\n        self.out_df[name] = detection_field(c, ~ c.isin(violations))\n",
+        "        name = verification_field(colname, 'allowed_values')\n        c = self.df[colname]\n        if pandas_coarse_type(c) != 'string':\n            self.out_df[name] = False\n        else:\n            self.out_df[name] = detection_field(c, ~ c.isin(violations))\n"),
+      rule='C06-AGREE', key='detect_allowed_values_constraint'),
+    M('C06', 'allowed-and-rex-detectors-share-a-new-helper-with-the-type-arm',
+      E(PC, "        name = verification_field(colname, 'allowed_values')\n        c = self.df[colname]\n        self.out_df[name] = detection_field(c, ~ c.isin(violations))\n",
+        "        self.detect_violating_values(colname, 'allowed_values', violations)\n\n    def detect_violating_values(self, colname, kind, violations):\n        name = verification_field(colname, kind)\n        c = self.df[colname]\n        if pandas_coarse_type(c) != 'string':\n            self.out_df[name] = False\n        else:\n            self.out_df[name] = detection_field(c, ~ c.isin(violations))\n"),
+      rule='C06-AGREE', key='detect_allowed_values_constraint'),
     M('C06', 'revert-fix-F03-sign-flag', E(PC, "        if pandas_coarse_type(c) != 'number':\n            self.out_df[name] = False\n        elif value == 'null':", "        if pandas_coarse_type(c) != 'number':\n            result = False\n        elif value == 'null':"),
       rule='C06-MUSTFLAG', key='detect_sign_constraint'),
     M('C06', 'sign-class-dropped-from-detector', E(PC, "        elif value == 'non-positive':\n            self.out_df[name] = detection_field(c, c <= 0)\n", ""),
